@@ -1,5 +1,7 @@
 import Jap.Core.Save
+import Jap.Core.SaveSource
 import Jap.Lemmas.Save
+import Jap.Lemmas.SavePartial
 import Jap.Gen.SaveOrder
 /-!
 C18 — save never destroys data: all-or-nothing on failure, no silent overwrite.
@@ -37,6 +39,27 @@ theorem tie_path_creatable :
     `Env.roParent` are facts about -/
 theorem tie_path_creatable_parent :
     Jap.Gen.SaveOrder.pathCreatableParent = "os.path.realpath(os.path.join(abs_path, '..'))" := by decide
+
+/-- the fsspec block of `save`, with its guards: probe (`Path(mode="sw")`), `except TypeError: pass`,
+    `NotImplementedError` for multi-file AFTER the probe, `fsspec.open` BEFORE `dump` — the order `saveFsspec` implements -/
+theorem tie_fsspec_order : Jap.Gen.SaveOrder.fsspecSteps = modelFsspecSteps := by decide
+/-- the block sits between the format check and `Path(mode="fc")` -/
+theorem tie_fsspec_position :
+    Jap.Gen.SaveOrder.saveTopLevel = ["format", "fsspec", "path_fc", "check_overwrite", "split"] := by decide
+/-- `Path(mode="sw")` probes an fsspec path by opening it for WRITING and closing it (`saveFsspec`: `fs.put path ""`) -/
+theorem tie_fsspec_probe : Jap.Gen.SaveOrder.pathFsspecProbe = modelFsspecProbe := by decide
+/-- every `check_overwrite(p)` tests `p.absolute` (tie_check_overwrite) and the `open` that follows it opens the same
+    `p.absolute`; sub-files are `basename` of the path they were loaded from — so check and open go through the same
+    `Env.resolve` and the model may identify a spelling with the file it stands for -/
+theorem tie_check_and_open_same_file :
+    Jap.Gen.SaveOrder.fileExprs =
+      ["path_fc = Path(path, mode='fc')", "check:path_fc", "open:path_fc.absolute, 'w'",
+       "val_path = Path(os.path.basename(val['__path__'].absolute), mode='fc')", "check:val_path", "open:val_path.absolute, 'w'",
+       "val_path = Path(os.path.basename(val.absolute), mode='fc')", "check:val_path", "open:val_path.absolute, 'w'",
+       "open:path_fc.absolute, 'w'"] := by decide
+/-- every statement of `save` (with `check_overwrite` and `save_paths`) is the text the model was transcribed from -/
+theorem tie_save_signature : Jap.Gen.SaveOrder.saveSignature = transcribedSignature := rfl
+theorem tie_save_statements : Jap.Gen.SaveOrder.saveStatements = transcribedStatements := rfl
 
 /-! ## no silent overwrite -/
 
@@ -410,6 +433,273 @@ theorem C18_failure_target_untouched (env : Env) (fs : FS) (i : Input) (e : Err)
         cases hd : i.dump with
         | fail e' => exact hk
         | text s => simp only [hd] at h ⊢; rw [hwf _ s h]; exact hk
+
+
+/-! ## what a failing save leaves behind, exactly (the open finding C18-multifile-partial characterised) -/
+
+/-- C18_failure_exact (both modes, every fault vector, sub-file lists of any length — a tree of sub-configs is
+    visited as the list `get_sorted_keys` makes of it): when `save` fails (other than by the OS in the middle of
+    a write) the files are EXACTLY those after the first `writtenCount` sub-file steps, all of which completed.
+    Nothing else has happened: no later sub-file, not the target. -/
+theorem C18_failure_exact (env : Env) (fs : FS) (i : Input) (e : Err)
+    (h : (save env fs i).1 = .error e) (hio : e ≠ .io) :
+    (saveSubs env i.overwrite fs (i.subs.take (writtenCount env fs i))).1 = .ok () ∧
+    (save env fs i).2 = (saveSubs env i.overwrite fs (i.subs.take (writtenCount env fs i))).2 :=
+  save_failure_exact env fs i e h hio
+
+/-- the same, file by file (distinct sub-file names): the first `writtenCount` sub-config files hold their new text,
+    EVERY other path is as it was -/
+theorem C18_failure_leaves_exactly_prefix (env : Env) (fs : FS) (i : Input) (e : Err)
+    (h : (save env fs i).1 = .error e) (hio : e ≠ .io) (hnd : (i.subs.map (·.path)).Nodup) :
+    (∀ s ∈ i.subs.take (writtenCount env fs i), s.kind = .cfg →
+        ∃ t, s.text = .text t ∧ (save env fs i).2.get s.path = some t) ∧
+    (∀ q, (∀ s ∈ i.subs.take (writtenCount env fs i), q ≠ s.path) → (save env fs i).2.get q = fs.get q) := by
+  obtain ⟨hok, heq⟩ := save_failure_exact env fs i e h hio
+  rw [heq]
+  constructor
+  · intro s hs hk
+    have hnd' : ((i.subs.take (writtenCount env fs i)).map (·.path)).Nodup := by
+      rw [List.map_take]
+      exact List.Pairwise.sublist (List.take_sublist _ _) hnd
+    exact (saveSubs_ok_get env i.overwrite _ fs hok hnd' s hs).1 hk
+  · intro q hq
+    exact saveSubs_frame env i.overwrite _ fs q hq
+
+/-- which fault points leave a partial result: exactly those NOT covered by `C18_all_or_nothing_multi_partial` —
+    a failing save has written nothing iff its failing step is no later than the first `open` -/
+theorem C18_failure_clean_iff (env : Env) (fs : FS) (i : Input) (e : Err)
+    (h : (save env fs i).1 = .error e) (hio : e ≠ .io) :
+    writtenCount env fs i = 0 ↔ failsByFirstOpen env fs i = true :=
+  writtenCount_zero_iff env fs i e h hio
+
+/-- the partial theorem is sharp: every failing run outside its hypothesis HAS written its first sub-file -/
+theorem C18_partial_is_sharp (env : Env) (fs : FS) (i : Input) (e : Err)
+    (h : (save env fs i).1 = .error e) (hio : e ≠ .io) (hnd : (i.subs.map (·.path)).Nodup)
+    (hlate : failsByFirstOpen env fs i = false) :
+    ∃ s rest, i.subs = s :: rest ∧
+      (s.kind = .cfg → ∃ t, s.text = .text t ∧ (save env fs i).2.get s.path = some t) := by
+  have hk : writtenCount env fs i ≠ 0 := by
+    intro h0
+    have := (writtenCount_zero_iff env fs i e h hio).mp h0
+    simp [hlate] at this
+  have hpre := (C18_failure_leaves_exactly_prefix env fs i e h hio hnd).1
+  cases hs : i.subs with
+  | nil =>
+    exfalso; apply hk
+    unfold writtenCount
+    simp [hs, okPrefix]
+  | cons s rest =>
+    refine ⟨s, rest, rfl, ?_⟩
+    obtain ⟨n, hn⟩ := Nat.exists_eq_succ_of_ne_zero hk
+    apply hpre s
+    rw [hn, hs, List.take_succ_cons]
+    exact List.mem_cons_self ..
+
+/-- the witness of the finding, counted: one sub-file written, the failing step is the second one -/
+theorem C18_failure_exact_witness :
+    writtenCount {} [] witness15b = 1 ∧ failsByFirstOpen {} [] witness15b = false := by decide
+
+/-- (d) with or without `overwrite`, success or failure: every path whose content changed is a declared target -/
+theorem C18_touched_subset_targets (env : Env) (fs : FS) (i : Input) (q : String)
+    (h : (save env fs i).2.get q ≠ fs.get q) : q = i.path ∨ ∃ s ∈ i.subs, q = s.path := by
+  by_cases hq : q = i.path
+  · exact .inl hq
+  · right
+    by_cases hs : ∃ s ∈ i.subs, q = s.path
+    · exact hs
+    · exfalso
+      apply h
+      apply C18_frame env fs i q hq
+      intro s hs' heq
+      exact hs ⟨s, hs', heq⟩
+
+/-! ## path aliasing: spellings, symbolic links, colliding names — `saveR` = `save` through `Env.resolve` -/
+
+/-- no silent overwrite through ANY aliasing (symbolic links, relative spellings, two names for one file):
+    `check_overwrite` and `open` look at the same resolved file -/
+theorem C18_no_overwrite_aliased (env : Env) (fs : FS) (i : Input) (how : i.overwrite = false)
+    (q : String) (hq : (fs.get q).isSome) : (saveR env fs i).2.get q = fs.get q :=
+  C18_no_overwrite env fs (i.resolved env) how q hq
+
+/-- frame through aliasing: a file that no target spelling resolves to is never touched -/
+theorem C18_frame_aliased (env : Env) (fs : FS) (i : Input) (q : String) (hq : q ≠ env.resolve i.path)
+    (hs : ∀ s ∈ i.subs, q ≠ env.resolve s.path) : (saveR env fs i).2.get q = fs.get q := by
+  apply C18_frame env fs (i.resolved env) q hq
+  intro s hs'
+  simp only [Input.resolved, List.mem_map] at hs'
+  obtain ⟨s0, h0, rfl⟩ := hs'
+  exact hs s0 h0
+
+theorem C18_all_or_nothing_single_aliased (env : Env) (fs : FS) (i : Input) (e : Err) (hm : i.multifile = false)
+    (h : (saveR env fs i).1 = .error e) (hio : e ≠ .io) : (saveR env fs i).2 = fs :=
+  C18_all_or_nothing_single env fs (i.resolved env) e hm h hio
+
+/-- a target (or sub-file) whose resolved location cannot be created — missing or read-only directory, e.g. a symbolic
+    link into a directory that is gone, or a path through a non-existing directory — is refused before anything
+    is written -/
+theorem C18_uncreatable_target_clean (env : Env) (fs : FS) (i : Input)
+    (h : pathFc env (env.resolve i.path) = false) :
+    (∃ e, (saveR env fs i).1 = .error e) ∧ (saveR env fs i).2 = fs := by
+  apply C18_all_or_nothing_multi_partial
+  unfold failsByFirstOpen
+  simp [Input.resolved, h]
+
+/-- a sub-file name that is a symbolic link to an existing file: refused without `overwrite`, the file is intact -/
+theorem C18_alias_symlinked_sub_refused :
+    let env : Env := { links := [("s1.yaml", "precious.txt")] }
+    let fs : FS := [("precious.txt", "data")]
+    let i : Input := { path := "main.yaml", dump := .text "s1: s1.yaml\n", subs := [{ path := "s1.yaml", text := .text "x: 1\n" }] }
+    saveR env fs i = (.error .refuse, fs) := by decide
+
+/-- … and with `overwrite` the write goes THROUGH the link: the file touched is the resolved one (declared target
+    up to `resolve`), no file named like the link appears -/
+theorem C18_alias_symlinked_sub_written_through :
+    let env : Env := { links := [("s1.yaml", "precious.txt")] }
+    let fs : FS := [("precious.txt", "data")]
+    let i : Input := { path := "main.yaml", overwrite := true, dump := .text "m", subs := [{ path := "s1.yaml", text := .text "x: 1\n" }] }
+    (saveR env fs i).1 = .ok () ∧ (saveR env fs i).2.get "precious.txt" = some "x: 1\n" ∧
+    (saveR env fs i).2.get "s1.yaml" = none := by decide
+
+/-- two sub-file names that resolve to ONE file, no `overwrite`: the second is refused after the first was written
+    (an instance of C18-multifile-partial reached through aliasing) -/
+theorem C18_alias_two_names_one_file :
+    let env : Env := { links := [("s1.yaml", "t.yaml"), ("s2.yaml", "t.yaml")] }
+    let i : Input := { path := "main.yaml", dump := .text "m",
+                       subs := [{ path := "s1.yaml", text := .text "x: 5\n" }, { path := "s2.yaml", text := .text "y: 6\n" }] }
+    saveR env [] i = (.error .refuse, [("t.yaml", "x: 5\n")]) := by decide
+
+/-- a sub-config whose file has the basename of the target (loaded from `elsewhere/main.yaml`, saved to
+    `main.yaml`): the target was checked BEFORE the sub-file created it, the final `open` is not checked again —
+    the save succeeds without `overwrite` and the sub-config's text is gone (C18-basename-collision; no
+    PRE-EXISTING file is lost: `C18_no_overwrite`) -/
+theorem C18_alias_sub_equals_main :
+    let i : Input := { path := "main.yaml", dump := .text "s1: main.yaml\n", subs := [{ path := "main.yaml", text := .text "x: 5\n" }] }
+    saveR {} [] i = (.ok (), [("main.yaml", "s1: main.yaml\n")]) := by decide
+
+/-- a target that is a dangling symbolic link: the file it points to is created, the link name holds no file -/
+theorem C18_alias_dangling_link_target :
+    let env : Env := { links := [("main.yaml", "actual.yaml")] }
+    let i : Input := { path := "main.yaml", multifile := false, dump := .text "a: 1\n" }
+    saveR env [("other.txt", "o")] i = (.ok (), [("actual.yaml", "a: 1\n"), ("other.txt", "o")]) := by decide
+
+/-- relative and absolute spelling of one existing file: refused under either spelling -/
+theorem C18_alias_relative_spelling_refused :
+    let env : Env := { links := [("./main.yaml", "/d/main.yaml"), ("../d/main.yaml", "/d/main.yaml")] }
+    let fs : FS := [("/d/main.yaml", "precious")]
+    (∀ p ∈ ["./main.yaml", "../d/main.yaml", "/d/main.yaml"],
+      saveR env fs { path := p, multifile := false, dump := .text "new" } = (.error .refuse, fs)) := by decide
+
+/-! ## the fsspec branch (`memory://…`, `s3://…`: any path `Path(mode="sw")` recognises) — `saveFsspec`
+
+C18 at full strength is FALSE on this branch in both halves (findings C18-fsspec-silent-overwrite and
+C18-fsspec-truncates-on-failure):
+
+  theorem C18_no_overwrite_fsspec : i.overwrite = false → (fs.get q).isSome → (saveFsspec fs i).2.get q = fs.get q
+  theorem C18_all_or_nothing_fsspec : (saveFsspec fs i).1 = .error e → e ≠ .io → (saveFsspec fs i).2 = fs
+-/
+
+def witnessFsspec : FInput := { path := "memory://c.yaml", multifile := false, dump := .text "a: 1\n" }
+
+/-- `overwrite` not requested, existing file: replaced, and `save` reports success -/
+theorem C18_fsspec_silent_overwrite_witness :
+    witnessFsspec.overwrite = false ∧
+    saveFsspec [("memory://c.yaml", "precious: 1\n")] witnessFsspec = (.ok (), [("memory://c.yaml", "a: 1\n")]) := by decide
+
+theorem C18_no_overwrite_fsspec_fails :
+    ¬ (∀ (fs : FS) (i : FInput) (q : String), i.overwrite = false → (fs.get q).isSome →
+        (saveFsspec fs i).2.get q = fs.get q) := by
+  intro h
+  have := h [("memory://c.yaml", "precious: 1\n")] witnessFsspec "memory://c.yaml" (by decide) (by decide)
+  exact absurd this (by decide)
+
+/-- `overwrite` is not looked at on this branch -/
+theorem C18_fsspec_overwrite_ignored (fs : FS) (i : FInput) (b : Bool) :
+    saveFsspec fs { i with overwrite := b } = saveFsspec fs i := rfl
+
+/-- invalid configuration, `overwrite=True`: the file is emptied (the pre-fix F15 order lives on here, and the probe of
+    `Path(mode="sw")` has truncated the file even before) -/
+theorem C18_all_or_nothing_fsspec_fails :
+    ¬ (∀ (fs : FS) (i : FInput) (e : Err), (saveFsspec fs i).1 = .error e → e ≠ .io → (saveFsspec fs i).2 = fs) := by
+  intro h
+  have := h [("memory://c.yaml", "precious: 1\n")] { witnessFsspec with overwrite := true, dump := .fail .invalid } .invalid
+    (by decide) (by decide)
+  exact absurd this (by decide)
+
+/-- `multifile` left at its default: `NotImplementedError` — AFTER the probe has emptied the file -/
+theorem C18_fsspec_multifile_default_truncates :
+    saveFsspec [("memory://c.yaml", "precious: 1\n")] { path := "memory://c.yaml", dump := .text "a: 1\n" }
+      = (.error .notImplemented, [("memory://c.yaml", "")]) := by decide
+
+/-- exact characterisation of the branch: EVERY failure past the format check and the probe leaves the target
+    existing and empty, whatever it held -/
+theorem C18_fsspec_failure_empties (fs : FS) (i : FInput) (e : Err) (hf : i.formatOk = true) (hp : i.probeOk = true)
+    (h : (saveFsspec fs i).1 = .error e) : (saveFsspec fs i).2.get i.path = some "" := by
+  unfold saveFsspec at *
+  simp only [hf, hp, Bool.not_true, Bool.false_eq_true, ↓reduceIte] at h ⊢
+  cases hm : i.multifile with
+  | true => simp [get_put_same]
+  | false =>
+    simp only [hm, Bool.false_eq_true, ↓reduceIte] at h ⊢
+    unfold openThenWrite at *
+    cases ho : i.wr.openOk with
+    | false => simp [get_put_same]
+    | true =>
+      simp only [ho, Bool.not_true, Bool.false_eq_true, ↓reduceIte] at h ⊢
+      cases hd : i.dump with
+      | fail e' => simp [get_put_same]
+      | text t =>
+        simp only [hd] at h ⊢
+        cases hw : i.wr.writeOk with
+        | false => simp [get_put_same]
+        | true => simp [hw] at h
+
+/-- C18_all_or_nothing_fsspec_partial: the failures that leave everything alone are exactly an unknown format and a
+    failing probe (both precede the first open) -/
+theorem C18_all_or_nothing_fsspec_partial (fs : FS) (i : FInput) (h : i.formatOk = false ∨ i.probeOk = false) :
+    (∃ e, (saveFsspec fs i).1 = .error e) ∧ (saveFsspec fs i).2 = fs := by
+  unfold saveFsspec
+  rcases h with h | h
+  · simp [h]
+  · cases hf : i.formatOk <;> simp [h]
+
+/-- frame on the fsspec branch: nothing but the target is ever touched -/
+theorem C18_fsspec_frame (fs : FS) (i : FInput) (q : String) (hq : q ≠ i.path) :
+    (saveFsspec fs i).2.get q = fs.get q := by
+  unfold saveFsspec
+  split
+  · rfl
+  split
+  · rfl
+  dsimp only
+  split
+  · exact get_put_other _ _ _ _ hq
+  · rw [openThenWrite_frame _ _ _ _ _ hq]; exact get_put_other _ _ _ _ hq
+
+/-- success on the fsspec branch: the target holds exactly the dump text -/
+theorem C18_fsspec_success_writes (fs : FS) (i : FInput) (h : (saveFsspec fs i).1 = .ok ()) :
+    ∃ t, i.dump = .text t ∧ (saveFsspec fs i).2.get i.path = some t := by
+  unfold saveFsspec at *
+  split at h
+  · simp at h
+  split at h
+  · simp at h
+  dsimp only at h ⊢
+  split at h
+  · simp at h
+  · rename_i h1 h2 h3
+    simp only [h1, h2, h3, Bool.false_eq_true, ↓reduceIte]
+    obtain ⟨t, ht, hfs⟩ := openThenWrite_ok _ _ _ _ h
+    exact ⟨t, ht, by rw [hfs]; exact get_put_same _ _ _⟩
+
+/-- non-vacuity of the partial theorem and of the frame: unknown format on an existing file next to another one -/
+example :
+    saveFsspec [("memory://c.yaml", "p"), ("memory://d.yaml", "q")] { witnessFsspec with formatOk := false }
+      = (.error .format, [("memory://c.yaml", "p"), ("memory://d.yaml", "q")]) := by decide
+example :
+    (saveFsspec [("memory://c.yaml", "p"), ("memory://d.yaml", "q")] witnessFsspec).2.get "memory://d.yaml" = some "q" := by decide
+/-- a failing probe (unknown bucket, no permission): PathError, nothing touched -/
+example :
+    saveFsspec [("memory://c.yaml", "p")] { witnessFsspec with probeOk := false } = (.error .path, [("memory://c.yaml", "p")]) := by decide
 
 /-! ## non-vacuity -/
 
